@@ -18,7 +18,7 @@ import pandas as pd
 
 from .. import config, lib, record, runner, tlc
 
-NCALLS = 21
+NCALLS = 24
 NAMES = {1: 'jaccard_join(S)', 2: 'jaccard_join(B,allow_missing)', 3: 'cosine_join(B,>)', 4: 'dice_join(B)',
          5: 'overlap_join(B)', 6: 'overlap_coefficient_join(B)', 7: 'edit_distance_join(default tokenizer)',
          8: 'edit_distance_join(Q set-mode qgram)', 9: 'jaccard_join(B) rejected: threshold 1.5',
@@ -28,18 +28,25 @@ NAMES = {1: 'jaccard_join(S)', 2: 'jaccard_join(B,allow_missing)', 3: 'cosine_jo
          17: 'dataframe_column_to_str(inplace=False)',
          18: 'dice_join(B) on a right table whose join values are all missing',
          19: 'jaccard_join(S) with threshold 0.9', 20: 'PrefixFilter(qgram q=2, EDIT_DISTANCE, 1).filter_tables',
-         21: 'PrefixFilter(qgram q=3, EDIT_DISTANCE, 1).filter_tables'}
+         21: 'PrefixFilter(qgram q=3, EDIT_DISTANCE, 1).filter_tables',
+         22: 'overlap_join(Q set-mode qgram)', 23: 'OverlapFilter(S,1).filter_candset on s',
+         24: 'OverlapFilter(S,1).filter_candset on s2'}
 
 
 def fresh_objects():
     import py_stringmatching as sm
     ssj = lib.load()
-    L = pd.DataFrame({'id': pd.Series([1, 2, 3, 4, 5], dtype='int64'),
-                      's': pd.Series(['a b c', 'b c', None, '', 'b'], dtype=object),
-                      'n': pd.Series([10, 20, 30, 40, 50], dtype='int64')})
-    R = pd.DataFrame({'id': pd.Series([11, 12, 13], dtype='int64'),
-                      's': pd.Series(['a b', '', 'b c d'], dtype=object)})
-    C = pd.DataFrame({'_id': [0, 1, 2, 3, 4], 'l_id': [1, 1, 2, 4, 3], 'r_id': [11, 13, 13, 12, 11]})
+    # row 6 / 14: strings of more than 48 characters with repeated words and repeated 2-grams (set and bag
+    # tokenisations differ); s2: a second string column for calls on another attribute of the same objects
+    long_l, long_r = ('ab ab cd ' * 6).strip(), ('ab cd cd ' * 6).strip()
+    L = pd.DataFrame({'id': pd.Series([1, 2, 3, 4, 5, 6], dtype='int64'),
+                      's': pd.Series(['a b c', 'b c', None, '', 'b', long_l], dtype=object),
+                      'n': pd.Series([10, 20, 30, 40, 50, 60], dtype='int64'),
+                      's2': pd.Series(['b d', 'a', 'x y', None, 'a b', long_r], dtype=object)})
+    R = pd.DataFrame({'id': pd.Series([11, 12, 13, 14], dtype='int64'),
+                      's': pd.Series(['a b', '', 'b c d', long_r], dtype=object),
+                      's2': pd.Series(['x', 'a b', 'd', 'ab ab'], dtype=object)})
+    C = pd.DataFrame({'_id': [0, 1, 2, 3, 4, 5, 6], 'l_id': [1, 1, 2, 4, 3, 6, 6], 'r_id': [11, 13, 13, 12, 11, 14, 11]})
     toks = {'S': sm.WhitespaceTokenizer(return_set=True), 'B': sm.WhitespaceTokenizer(return_set=False),
             'D': inspect.signature(ssj.edit_distance_join).parameters['tokenizer'].default,
             'Q': sm.QgramTokenizer(qval=2, return_set=True)}
@@ -94,6 +101,12 @@ def do_call(c, ssj, L, R, C, toks):
         L2 = pd.DataFrame({'id': [1, 2], 's': pd.Series(['abcdefgh', 'abcdefg'] if c == 21 else ['abcdefg', 'abcdef'], dtype=object)})
         R2 = pd.DataFrame({'id': [11, 12], 's': pd.Series(['abcXefgh', 'abXdefg'] if c == 21 else ['abcXefg', 'abXdef'], dtype=object)})
         return ssj.PrefixFilter(qt, 'EDIT_DISTANCE', 1).filter_tables(L2, R2, *k, **kw)
+    if c == 22:
+        return ssj.overlap_join(L, R, *k, toks['Q'], 3, **kw)
+    if c == 23:
+        return ssj.OverlapFilter(toks['S'], 1).filter_candset(C, 'l_id', 'r_id', L, R, 'id', 'id', 's', 's', **kw)
+    if c == 24:
+        return ssj.OverlapFilter(toks['S'], 1).filter_candset(C, 'l_id', 'r_id', L, R, 'id', 'id', 's2', 's2', **kw)
     raise ValueError(c)
 
 
